@@ -860,7 +860,15 @@ func checkSort(c SeqCase) (err error) {
 		return err
 	}
 	n := len(elems)
-	input := starlark.NewList(append([]starlark.Value(nil), elems...))
+	// the argument is a list or (every third case) a tuple of the same elements
+	var input interface {
+		starlark.Value
+		Len() int
+		Index(int) starlark.Value
+	} = starlark.NewList(append([]starlark.Value(nil), elems...))
+	if n%3 == 2 {
+		input = starlark.Tuple(append([]starlark.Value(nil), elems...))
+	}
 	var out starlark.Value
 	switch {
 	case keyFn == nil && !c.Reverse:
@@ -894,8 +902,8 @@ func checkSort(c SeqCase) (err error) {
 		}
 	}
 	l, ok := out.(*starlark.List)
-	if !ok || l == input {
-		return fmt.Errorf("sorted returned %s (the argument itself: %v), want a new list", out.Type(), l == input)
+	if !ok || starlark.Value(l) == starlark.Value(input) {
+		return fmt.Errorf("sorted returned %s, want a new list", out.Type())
 	}
 	if l.Len() != n {
 		return fmt.Errorf("sorted returned %d elements for %d", l.Len(), n)
